@@ -24,6 +24,8 @@
   Since repair abca806 the code evaluates the candidate `(P2 k - B2 k) / A2 k` of a cell in the expanded form
   `u0 (b1 j / a1 j + u1) + b0 i / a0 i * u1` (no cancellation); section 9 relates the two forms.  No statement of
   sections 1-8 changed.
+  Since repair b817f74 every joint mass `P2 k - A2 k * û` is clamped at zero; on well-formed operands the clamp is idle
+  (section 10), no statement of sections 1-9 changed.
 -/
 import SLV.Refine.C06Lemmas
 import SLV.Props.C01
@@ -786,5 +788,89 @@ example :
       (by simp [Fin.forall_fin_two]) (by simp [Fin.forall_fin_two]; positivity) le_rfl
       (by simp [Fin.forall_fin_two]) ⟨0, 0, by norm_num⟩
     rw [e, hq]; simp
+
+/-! ## 10. the clamp of the joint belief masses (repair b817f74)
+
+  Every joint mass `p[d] - a[d] * u` is clamped at zero.  On exactly well-formed operands the clamp is idle
+  (`C06_clamp_idle`, `…3`: the un-clamped text `Pinned.product2NoClamp` computes the same opinion; the joint masses are
+  `bJ2 ≥ B2 ≥ 0` by `C06_wf`, and the candidate filter is the exact test `a > 0`, so no guard band is involved — unlike
+  `uncertainty_maximized`), which is why no statement of sections 1-9 changed.  What the clamp adds holds for ALL
+  operands of the exact semantics (`C06_product_masses_nonneg_gen`, `…3`). -/
+
+theorem C06_clamp_idle (h0 : WF b0 u0 a0) (h1 : WF b1 u1 a1) :
+    product2Raw (⟨liftT b0, XQ.fin u0, liftT a0⟩ : Opinion (XQ f) n0) ⟨liftT b1, XQ.fin u1, liftT a1⟩
+      = Pinned.product2NoClamp ⟨liftT b0, XQ.fin u0, liftT a0⟩ ⟨liftT b1, XQ.fin u1, liftT a1⟩ := by
+  rw [product2Raw_lift h0 h1, product2NoClamp_lift h0 h1]
+
+theorem C06_clamp_idle3 (h0 : WF b0 u0 a0) (h1 : WF b1 u1 a1) (h2 : WF b2 u2 a2) :
+    product3Raw (⟨liftT b0, XQ.fin u0, liftT a0⟩ : Opinion (XQ f) n0) ⟨liftT b1, XQ.fin u1, liftT a1⟩
+        ⟨liftT b2, XQ.fin u2, liftT a2⟩
+      = Pinned.product3NoClamp ⟨liftT b0, XQ.fin u0, liftT a0⟩ ⟨liftT b1, XQ.fin u1, liftT a1⟩
+          ⟨liftT b2, XQ.fin u2, liftT a2⟩ := by
+  rw [product3Raw_lift h0 h1 h2, product3NoClamp_lift h0 h1 h2]
+
+/-- FALSE before repair b817f74 (`C06_product_negative_mass_before` below), true now: for ALL operands of the exact
+    semantics — no well-formedness, entries of either sign, `±∞` and NaN included — no joint belief mass of the product
+    compares below zero: not in the part shared by both families (`product2Raw`), hence not in the labelled product
+    (`Opinion::normalized` renormalises the base rate only), nor in an accepted result of the unlabelled one; and when
+    the unlabelled product's `Opinion::new` still answers `b[..] ∈ [0,1] is not satisfied`, the offending mass is NaN,
+    `+∞` or a finite value above `1 + 4ε` — never a negative one.  (The joint uncertainty itself is not clamped; it is
+    `≥ 0` for all operands with non-negative finite entries, `C06_uncertainty_nonneg_gen`.) -/
+theorem C06_product_masses_nonneg_gen (w0 : Opinion (XQ f) n0) (w1 : Opinion (XQ f) n1) :
+    (∀ k : Fin (n0 * n1), XQ.NotNeg (product2Raw w0 w1).b[k]) ∧
+    (∀ k : Fin (n0 * n1), XQ.NotNeg (product2L w0 w1).b[k]) ∧
+    (∀ w, product2U w0 w1 = .ok w → ∀ k : Fin (n0 * n1), XQ.NotNeg w.b[k]) ∧
+    (product2U w0 w1 = .error .b →
+      ∃ k : Fin (n0 * n1), (product2Raw w0 w1).b[k] = XQ.nan ∨ (product2Raw w0 w1).b[k] = XQ.pinf ∨
+        ∃ q : ℚ, 1 + 4 * f.eps < q ∧ (product2Raw w0 w1).b[k] = XQ.fin q) := by
+  have hraw : ∀ k : Fin (n0 * n1), XQ.NotNeg (product2Raw w0 w1).b[k] := fun k => rawOf_b_notNeg _ _ _ k
+  refine ⟨hraw, hraw, ?_, ?_⟩
+  · intro w hw k
+    rw [tryNew_ok_eq hw]; exact hraw k
+  · intro h
+    exact tryNew_b_of_notNeg _ _ _ hraw h
+
+/-- three factors -/
+theorem C06_product_masses_nonneg_gen3 (w0 : Opinion (XQ f) n0) (w1 : Opinion (XQ f) n1)
+    (w2 : Opinion (XQ f) n2) :
+    (∀ k : Fin (n0 * n1 * n2), XQ.NotNeg (product3Raw w0 w1 w2).b[k]) ∧
+    (∀ k : Fin (n0 * n1 * n2), XQ.NotNeg (product3L w0 w1 w2).b[k]) ∧
+    (∀ w, product3U w0 w1 w2 = .ok w → ∀ k : Fin (n0 * n1 * n2), XQ.NotNeg w.b[k]) ∧
+    (product3U w0 w1 w2 = .error .b →
+      ∃ k : Fin (n0 * n1 * n2), (product3Raw w0 w1 w2).b[k] = XQ.nan ∨ (product3Raw w0 w1 w2).b[k] = XQ.pinf ∨
+        ∃ q : ℚ, 1 + 4 * f.eps < q ∧ (product3Raw w0 w1 w2).b[k] = XQ.fin q) := by
+  have hraw : ∀ k : Fin (n0 * n1 * n2), XQ.NotNeg (product3Raw w0 w1 w2).b[k] :=
+    fun k => rawOf_b_notNeg _ _ _ k
+  refine ⟨hraw, hraw, ?_, ?_⟩
+  · intro w hw k
+    rw [tryNew_ok_eq hw]; exact hraw k
+  · intro h
+    exact tryNew_b_of_notNeg _ _ _ hraw h
+
+/-- vacuous first factor over `a = [1/2, 1/2]` -/
+def ncw0 : Opinion (XQ .f64) 2 := ⟨#v[.fin 0, .fin 0], .fin 1, #v[.fin (1 / 2), .fin (1 / 2)]⟩
+/-- second factor `([0, 1/2], 1/2, [1/2, 1/2 + 3ε])`: base rate sum `1 + 3ε`, accepted by the constructors, not `WF` -/
+def ncw1 : Opinion (XQ .f64) 2 :=
+  ⟨#v[.fin 0, .fin (1 / 2)], .fin (1 / 2), #v[.fin (1 / 2), .fin (1 / 2 + 3 * Fmt.eps .f64)]⟩
+
+/-- non-vacuity, and what the clamp repairs at the exact level: both operands are accepted by the checked
+    constructor; the projection of `ncw1` is renormalised by `1 + 3ε/2`, the minimising cells are `(·, 0)` with `û = 1/2`,
+    and `p - a û = (1/8)(1/(1 + 3ε/2) - 1)`: before repair b817f74 (`Pinned.product2NoClamp`) the finite negative mass
+    `-(3/16) ε / (1 + 3ε/2)` was returned … -/
+theorem C06_product_negative_mass_before :
+    ((match Opinion.tryNew ncw0.b ncw0.u ncw0.a, Opinion.tryNew ncw1.b ncw1.u ncw1.a with
+        | .ok _, .ok _ => true | _, _ => false)
+      && (let w := Pinned.product2NoClamp ncw0 ncw1
+          decide (w.u = .fin (1 / 2))
+            && decide (w.b[0] = .fin (-(3 / 16) * Fmt.eps .f64 / (1 + 3 / 2 * Fmt.eps .f64)))
+            && Scalar.lt w.b[0] (Scalar.zero : XQ .f64) && Scalar.lt w.b[2] (Scalar.zero : XQ .f64))) = true := by
+  decide +kernel
+
+/-- … and is exactly zero now -/
+theorem C06_product_negative_mass_repaired :
+    (let w := product2Raw ncw0 ncw1
+     decide (w.u = .fin (1 / 2)) && decide (w.b[0] = .fin 0) && decide (w.b[2] = .fin 0)
+       && (match product2U ncw0 ncw1 with | .ok _ => true | .error _ => false)) = true := by
+  decide +kernel
 
 end SLV.Props.C06
